@@ -47,26 +47,44 @@ def classes():
         LOG.append(('init', name, id(self)))
 
       def tearDown(self):
+        if FAULTS.get('td_block') not in (None, name):
+          RELEASE[0].set()
         LOG.append(('teardown', name, id(self)))
         if FAULTS.get('td_raise') == name:
           raise TdBoom('tearDown of %s failed' % name)
         if FAULTS.get('td_hang') == name:
-          while True:
+          t0 = time.time()
+          while time.time() - t0 < 4.0:       # (abandoned after plug_teardown_timeout_s = 0.03 s when all is well)
             time.sleep(0.001)
+          LOG.append(('hang-not-abandoned', name))
+        if FAULTS.get('td_block') == name:
+          # blocks where the asynchronous termination request cannot reach it (a C-level wait), until the framework
+          # moves on to the next tearDown / the output callback -- or gives up waiting for that after 3 s
+          try:
+            RELEASE[0].wait(3.0)
+          finally:   # (the pending termination request fires as soon as the wait returns)
+            LOG.append(('block-end', name, RELEASE[0].is_set()))
+            DONE[0].set()
 
-    _P.__name__ = 'Plug' + name
-    _P.__qualname__ = 'Plug' + name
+    # class D is a second, distinct class with the same module and class name as A (e.g. made by a plug factory)
+    _P.__name__ = 'Plug' + ('A' if name == 'D' else name)
+    _P.__qualname__ = _P.__name__
     return _P
 
-  for n in 'ABC':
+  for n in 'ABCD':
     _cls[n] = mk(n)
   return _cls
+
+
+RELEASE = [threading.Event()]
+DONE = [threading.Event()]
 
 
 # plug requests of a phase: list of (argname, class letter, update_kwargs)
 REQUESTS = [
     [], [('a', 'A', True)], [('b', 'B', True)], [('a', 'A', True), ('b', 'B', True)],
     [('a1', 'A', True), ('a2', 'A', True)], [('c', 'C', False)], [('a', 'A', True), ('c', 'C', True)],
+    [('a', 'A', True), ('d', 'D', True)],
 ]
 TEST_STARTS = [None, 'lambda', [], [('a', 'A', True)], [('c', 'C', True)]]
 
@@ -111,8 +129,10 @@ def run_case(case):
   del LOG[:]
   FAULTS.clear()
   kind, arg = case['fault']
-  if kind in ('ctor', 'td_raise', 'td_hang'):
+  if kind in ('ctor', 'td_raise', 'td_hang', 'td_block'):
     FAULTS[kind] = arg
+  RELEASE[0] = threading.Event()
+  DONE[0] = threading.Event()
   holder = {}
   phases = []
   for i, ridx in enumerate(case['phases']):
@@ -140,13 +160,14 @@ def run_case(case):
   tdiag = dl.TestDiagnoser(R, name='td')(tdiag_fn)
 
   def cb(rec):
+    RELEASE[0].set()
     LOG.append(('callback', rec.outcome.name))
 
   test = h.Test(*phases)
   holder['test'] = test
   test.add_output_callbacks(cb)
   test.add_test_diagnosers(tdiag)
-  if kind == 'td_hang':
+  if kind in ('td_hang', 'td_block'):
     conf.load(plug_teardown_timeout_s=0.03)
   try:
     try:
@@ -154,7 +175,10 @@ def run_case(case):
     except BaseException as e:  # pylint: disable=broad-except
       res = 'EXC:%s' % type(e).__name__
   finally:
-    if kind == 'td_hang':
+    RELEASE[0].set()
+    if kind == 'td_block' and any(e[0] == 'teardown' and e[1] == arg for e in list(LOG)):
+      DONE[0].wait(5.0)
+    if kind in ('td_hang', 'td_block'):
       conf.reset()
   h.Test.HANDLED_SIGINT_ONCE = False
   return {'res': res, 'log': list(LOG)}
@@ -221,6 +245,15 @@ def check(case, out):
       bad.append(('teardown-too-early', 'a plug tearDown ran before the last phase/test diagnoser finished: %r' % (log,)))
     if idx['callback'] and max(idx['teardown']) > min(idx['callback']):
       bad.append(('teardown-after-callback', 'a plug tearDown ran after an output callback: %r' % (log,)))
+  for e in log:
+    if e[0] == 'hang-not-abandoned':
+      bad.append(('teardown-hang-not-abandoned', 'the hanging tearDown of %s ran for 4 s without being abandoned' % e[1]))
+  for e in log:
+    if e[0] == 'block-end' and not e[2]:
+      bad.append(('teardown-blocked-others', 'while the tearDown of %s was stuck (past plug_teardown_timeout_s) nothing else '
+                  'happened: neither another tearDown nor the output callback ran for 3 s' % e[1]))
+  if kind == 'td_block' and arg in inits and not any(e[0] == 'block-end' for e in log):
+    bad.append(('teardown-blocked-others', 'the stuck tearDown of %s was never released' % arg))
   if len(idx['callback']) != 1:
     bad.append(('callbacks', 'output callback called %d times' % len(idx['callback'])))
   # only test_start's plugs exist while test_start runs
@@ -246,7 +279,7 @@ def check(case, out):
 def cases(tier):
   nph = 2 if tier == 'quick' else 3
   faults = [('none', None)]
-  faults += [('ctor', l) for l in 'ABC'] + [('td_raise', l) for l in 'ABC'] + [('td_hang', l) for l in 'AB']
+  faults += [('ctor', l) for l in 'ABC'] + [('td_raise', l) for l in 'ABC'] + [('td_hang', l) for l in 'AB'] + [('td_block', 'A')]
   faults += [('ts_raise', None), ('ts_stop', None), ('ts_abort', None)]
   for j in range(nph):
     faults += [('phase_raise', j), ('phase_stop', j), ('phase_hang', j), ('phase_abort', j)]
